@@ -8,10 +8,11 @@
    State of the code: /repo with the accepted repairs of batch 2 (fixes/proposed): Zod enum alias,
    one-argument Result harvested, dependencies of event payload types declared, one listener per
    distinct event name with every non-alphanumeric character mangled to an underscore,
-   ipc::Channel recognised, files visited in sorted order.
+   ipc::Channel recognised, files visited in sorted order; and of batch 3: commas split only
+   outside brackets (resolver and harvester), add_types_prefix recursing below [].
    Definitions only. *)
 From Coq Require Import String Ascii.
-From Coq Require Import List Arith Bool.
+From Coq Require Import List Arith Bool ZArith.
 Require Import TT.Model.Str TT.Model.TypeParse TT.Model.Harvest TT.Model.Pipeline TT.Model.Events.
 Require Import TT.Spec.TsLex TT.Spec.TsModule TT.Spec.TsObs TT.Spec.C02Closed.
 Import ListNotations.
@@ -57,7 +58,64 @@ Definition chan_msg (t : qty) : option qty :=
 Definition chans (c : cmd) : list (str * qty) :=
   flat_map (fun x => match chan_msg (snd x) with Some m => [(fst x, m)] | None => [] end) (c_params c).
 Definition ret_str (c : cmd) : str := match c_ret c with Some t => qtts t | None => S_ "()" end.
-Definition pts (s : str) : tstruct := match parse_type_structure s with Some t => t | None => TCustom s end.
+(* type_resolver.rs find_top_level_comma / split_top_level: commas outside <>, (), [] (signed depth) *)
+Definition opens (c : ascii) : bool := Ascii.eqb c "<"%char || Ascii.eqb c "("%char || Ascii.eqb c "["%char.
+Definition closes (c : ascii) : bool := Ascii.eqb c ">"%char || Ascii.eqb c ")"%char || Ascii.eqb c "]"%char.
+Fixpoint ftc_go (d : Z) (i : nat) (s : str) : option nat :=
+  match s with
+  | [] => None
+  | b :: r => if opens b then ftc_go (d + 1)%Z (S i) r
+              else if closes b then ftc_go (d - 1)%Z (S i) r
+              else if Ascii.eqb b ","%char && (d =? 0)%Z then Some i
+              else ftc_go d (S i) r
+  end.
+Definition ftc (s : str) : option nat := ftc_go 0%Z 0 s.
+Fixpoint split_top_go (fuel : nat) (s : str) : list str :=
+  match fuel with
+  | 0 => [s]
+  | S f => match ftc s with Some i => firstn i s :: split_top_go f (skipn (S i) s) | None => [s] end
+  end.
+Definition split_top (s : str) : list str := split_top_go (S (List.length s)) s.
+
+(* TypeResolver::parse_type_structure after the repair: TypeParse.parse with the three splitting
+   helpers replaced (Result: first top-level comma; maps: first top-level comma; tuples: every
+   top-level comma) *)
+Definition split2_top (inner : str) : option (str * str) :=
+  match ftc inner with Some i => Some (trim (firstn i inner), trim (skipn (S i) inner)) | None => None end.
+Fixpoint parse2 (fuel : nat) (s0 : str) : option tstruct :=
+  match fuel with
+  | 0 => None
+  | S f =>
+    let s := trim s0 in
+    if starts (L "&") s then parse2 f (skipn 1 s) else
+    match wrapped "Option<" s with Some inner => option_map TOpt (parse2 f inner) | None =>
+    match wrapped "Result<" s with
+    | Some inner =>
+        let ok := match ftc inner with Some i => trim (firstn i inner) | None => inner end in
+        option_map TRes (parse2 f ok)
+    | None =>
+    match wrapped "Vec<" s with Some inner => option_map TArr (parse2 f inner) | None =>
+    match (match wrapped "HashMap<" s with
+           | Some inner => split2_top inner
+           | None => None end),
+          (match wrapped "BTreeMap<" s with
+           | Some inner => split2_top inner
+           | None => None end) with
+    | Some (k, v), _ | None, Some (k, v) =>
+        match parse2 f k, parse2 f v with Some k', Some v' => Some (TMap k' v') | _, _ => None end
+    | None, None =>
+    match (match wrapped "HashSet<" s with Some i => Some i | None => wrapped "BTreeSet<" s end) with
+    | Some inner => option_map TSet (parse2 f inner)
+    | None =>
+    if starts (L "(") s && ends_with ")"%char s then
+      let inner := mid 1 1 s in
+      if all_blank inner then Some (TPrim (L "void"))
+      else option_map TTuple (mapM (parse2 f) (map trim (split_top inner)))
+    else match prim_of s with Some p => Some (TPrim p) | None => Some (TCustom s) end
+    end end end end end
+  end.
+Definition parse_type_structure2 (s : str) : option tstruct := parse2 (S (List.length s)) s.
+Definition pts (s : str) : tstruct := match parse_type_structure2 s with Some t => t | None => TCustom s end.
 Definition has_p (c : cmd) : bool := negb (Nat.eqb (List.length (vparams c)) 0).
 Definition has_c (c : cmd) : bool := negb (Nat.eqb (List.length (chans c)) 0).
 Definition has_pc (c : cmd) : bool := has_p c || has_c c.
@@ -111,8 +169,9 @@ Definition is_enum (p : proj) (n : str) : bool := match info p n with Some (b, _
 Fixpoint grow (step : str -> list str) (n : nat) (seen : list str) : list str :=
   match n with 0 => seen | S k => grow step k (seen ++ filter (fun x => negb (mem x seen)) (dedup (flat_map step seen))) end.
 
-(* analysis/mod.rs extract_type_names_recursive after the repair: as Harvest.harvest, except that a
-   Result without a comma hands its only argument on *)
+(* analysis/mod.rs extract_type_names_recursive after the repairs: as Harvest.harvest, except that a
+   Result without a comma hands its only argument on, and that Result / map / tuple arms split at
+   top-level commas only *)
 Fixpoint harvest2 (fuel : nat) (s0 : str) : list str :=
   match fuel with
   | 0 => []
@@ -120,7 +179,7 @@ Fixpoint harvest2 (fuel : nat) (s0 : str) : list str :=
     let s := trim s0 in
     if starts (L "Result<") s then
       match strip_wrapped "Result<" s with
-      | Some inner => match find_char ","%char inner with
+      | Some inner => match ftc inner with
                       | Some i => harvest2 f (trim (firstn i inner)) ++ harvest2 f (trim (skipn (S i) inner))
                       | None => harvest2 f inner
                       end
@@ -131,7 +190,7 @@ Fixpoint harvest2 (fuel : nat) (s0 : str) : list str :=
       match strip_wrapped "Vec<" s with Some inner => harvest2 f inner | None => [] end
     else if starts (L "HashMap<") s || starts (L "BTreeMap<") s then
       match (if starts (L "HashMap<") s then strip_wrapped "HashMap<" s else strip_wrapped "BTreeMap<" s) with
-      | Some inner => match find_char ","%char inner with
+      | Some inner => match ftc inner with
                       | Some i => harvest2 f (trim (firstn i inner)) ++ harvest2 f (trim (skipn (S i) inner))
                       | None => [] end
       | None => [] end
@@ -139,7 +198,7 @@ Fixpoint harvest2 (fuel : nat) (s0 : str) : list str :=
       match (if starts (L "HashSet<") s then strip_wrapped "HashSet<" s else strip_wrapped "BTreeSet<" s) with
       | Some inner => harvest2 f inner | None => [] end
     else if starts (L "(") s && ends_with ")"%char s && negb (str_eqb s (L "()")) then
-      flat_map (fun x => harvest2 f (trim x)) (split_naive ","%char (mid 1 1 s))
+      flat_map (fun x => harvest2 f (trim x)) (split_top (mid 1 1 s))
     else if starts (L "&") s then harvest2 f (strip_amps s)
     else if custom_name s then [s] else []
   end.
@@ -206,20 +265,11 @@ Section Names.
   Definition prims8 : list str := map L ["void"; "string"; "number"; "boolean"; "any"; "unknown"; "null"; "undefined"].
   Definition prims4 : list str := map L ["string"; "number"; "boolean"; "void"].
   Definition Q (n : str) : ref := Qual (S_ "types") n.
-  Fixpoint leaf_text (t : tstruct) : option str :=
-    match t with TPrim s => Some s | TCustom n => Some (mtext n) | TTuple [] => Some (S_ "void") | TRes u => leaf_text u | _ => None end.
   Fixpoint leftmost_map (t : tstruct) : bool :=
     match t with TMap _ _ => true | TArr u | TSet u | TOpt u | TRes u => leftmost_map u | _ => false end.
-  (* names of  "types." ++ text  *)
-  Fixpoint qual_head (t : tstruct) : option (list ref) :=
-    match t with
-    | TPrim s => Some [Q s] | TCustom n => Some [Q (mtext n)]
-    | TTuple [] => Some [Q (S_ "void")] | TTuple _ => None
-    | TArr u | TSet u | TRes u => qual_head u
-    | TOpt u => option_map (fun l => l ++ [Bare (S_ "null")]) (qual_head u)
-    | TMap k v => Some (Q (S_ "Record") :: map Bare (bn k ++ bn v)) end.
   Definition leaf_refs (x : str) : list ref := if mem x prims8 then [Bare x] else [Q x].
-  (* add_types_prefix (text of t): None = the result is not a type (types.[A, B][]) *)
+  (* add_types_prefix (text of t), after the repair of the [] branch (it recurses on the element
+     text); the option is kept for the callers, the result is always Some *)
   Fixpoint atp_refs (t : tstruct) : option (list ref) :=
     match t with
     | TRes u => atp_refs u
@@ -228,10 +278,7 @@ Section Names.
     | TTuple [] => Some [Bare (S_ "void")]
     | TTuple l => Some (map Bare (flat_map bn l))
     | TMap k v => Some (map Bare (S_ "Record" :: bn k ++ bn v))
-    | TArr u | TSet u =>
-        match leaf_text u with
-        | Some x => if mem x prims4 then Some [Bare x] else qual_head u
-        | None => qual_head u end
+    | TArr u | TSet u => atp_refs u
     | TOpt u => if leftmost_map u then Some (map Bare (bn u ++ [S_ "null"]))
                 else option_map (fun l => l ++ [Bare (S_ "null")]) (atp_refs u)
     end.
@@ -255,6 +302,25 @@ Section Names.
     | TMap k v => Bare (S_ "z") :: zn k ++ zn v
     | TTuple l => Bare (S_ "z") :: flat_map zn l end.
 End Names.
+
+(* base/templates.rs add_types_prefix on strings, after the repair (Pipeline.atp with the [] branch recursing) *)
+Fixpoint atp2 (fuel : nat) (s : str) : str :=
+  match fuel with 0 => s | S f =>
+  if mem s prims8 then s else
+  match strip_suffix (L "[]") s with
+  | Some base => atp2 f base ++ L "[]"
+  | None =>
+    if starts (L "Record<") s || starts (L "Map<") s then s else
+    match strip_suffix (L " | null") s with
+    | Some base => atp2 f base ++ L " | null"
+    | None =>
+      match strip_suffix (L " | undefined") s with
+      | Some base => atp2 f base ++ L " | undefined"
+      | None =>
+        if starts (L "[") s && ends_with "]"%char s then s
+        else if starts (L "types.") s then s else L "types." ++ s
+      end end end end.
+Definition add_types_prefix2 (s : str) : str := atp2 (S (List.length s)) s.
 
 (* ---------------- the four summaries ---------------- *)
 Definition any_chan (p : proj) : bool := existsb has_c (cmds p).
@@ -359,7 +425,7 @@ Definition wf (p : proj) : bool :=
   forallb (fun x => match em_payload (snd x) with PVar n => mem n (map fst (fst x)) | POther => false | _ => true end) (emits_of p).
 
 (* ---------------- recorded defect classes ---------------- *)
-(* C02-1 the comma-splitting defects make a leaf that is not a name (C05's classes) *)
+(* (repaired, kept as a diagnostic only) a leaf that is not a name *)
 Definition kf_garbage (p : proj) : bool := existsb (garbage (pj_maps p)) (all_site_ts p).
 (* C02-2 add_types_prefix, on a return type or an event payload type *)
 Definition kf_prefix (p : proj) : bool := existsb (fun t => negb (atp_clean (pj_maps p) t)) (prefixed_ts p).
@@ -374,7 +440,7 @@ Definition kf_collision (p : proj) (zod : bool) : bool :=
   has_dup (ms_exports (types_sum p zod)) || has_dup (ms_exports (commands_sum p zod)).
 
 Definition kf_C02 (p : proj) (zod : bool) : bool :=
-  kf_garbage p || kf_prefix p || kf_event_head p || kf_dup_listener p || kf_collision p zod.
+  kf_prefix p || kf_event_head p || kf_dup_listener p || kf_collision p zod.
 
 (* every custom name a declaration or a prefixed site mentions is declared (decidable side condition
    of the model-level theorem; the full statement derives it from closed_world and the classes) *)
